@@ -84,14 +84,16 @@ theorem inside_can_leave (s : Occ) : (0 < s.readers → (step s .exitR).isSome =
 
 /-! ### 2b. no deadlock: what an operation does while it holds a scope's lock (regenerated on every run) -/
 
-/-- the calls the env methods make while the scope's mutex is held, as audited: `String` formats under its lock. Nothing else
+/-- the calls the env methods make while the scope's mutex is held, as audited: `String` formats under its lock (a deferred
+unlock since the repair that names modules instead of dumping them; the `value.*` calls are reflect.Value accessors, they take no lock). Nothing else
 calls anything while holding the lock (Addr used to ask the external lookup and the parent under its read lock; since the repair it
 releases the lock first, like GetValue and Type) - in particular no method locks a second scope and none re-enters a method of the
 same scope.  The list keeps Addr's former entries: a subset is fine, anything new is not. -/
 def auditedHeldCalls : List (String × String × Bool) := [
   ("Addr", "external:Get", true), ("Addr", "other:v.Addr", true), ("Addr", "other:v.CanAddr", true),
   ("Addr", "pkg:fmt.Errorf", true), ("Addr", "up:Addr", true),
-  ("String", "other:buffer.WriteString", false), ("String", "pkg:fmt.Sprintf", false)]
+  ("String", "other:buffer.String", true), ("String", "other:buffer.WriteString", true), ("String", "pkg:fmt.Sprintf", true),
+  ("String", "other:value.IsValid", true), ("String", "other:value.CanInterface", true), ("String", "other:value.Interface", true)]
 
 /-- Every call made under a scope's lock is one of the audited ones: the only nested lock acquisition is Addr's, from a
 scope to its parent. -/
